@@ -28,7 +28,7 @@ def run_group(cmd, cwd, env, timeout, logp):
             except ProcessLookupError:
                 pass
             pr.wait()
-            rc = -9
+            rc = -999          # timeout (a plain -9 is a kill from outside, e.g. the kernel's out-of-memory killer)
     return rc, open(logp, errors="replace").read()
 
 
@@ -129,7 +129,9 @@ class Work:
         t0 = time.time()
         rc, out = run_group(cmd, d, e, timeout, os.path.join(d, "tlc.log"))
         res = dict(name=name, rc=rc, wall=time.time() - t0, dir=d, log=os.path.join(d, "tlc.log"), ce=ce if os.path.exists(ce) else None,
-                   timeout=(rc == -9))
+                   timeout=(rc == -999))
+        if rc < 0 and rc != -999:
+            res["error"] = "TLC was killed by signal %d (out of memory?)" % (-rc)
         m = re.search(r"(\d+) states generated, (\d+) distinct states found, (\d+) states left", out)
         if m:
             res.update(generated=int(m.group(1)), distinct=int(m.group(2)), left=int(m.group(3)))
